@@ -75,8 +75,55 @@ func C21(c *Ctx) {
 			succOK(c, r1, key(fn, fmt.Sprintf("mem-update[%d]<-ok(AppendRecords)", i+1)), fn, ap, "wal.AppendRecords", m.(ssa.Instruction), "in-memory raft storage update")
 		}
 	}
+	const r1b = "K1.replay-applies-every-record"
+	c.Rule(r1b, "the WAL replay callback in OpenWALStorage applies every raft-typed record of its group to the in-memory storage: between the successful decode of a record and mem.Append / mem.SetHardState / mem.ApplySnapshot the only conditions are the decode error test and the group-id / emptiness filter on the decoded values (no comparison with state replayed so far)")
 	if fn := c.Fn("raftstore/engine", "OpenWALStorage"); fn != nil {
-		_ = fn
+		var cb *ssa.Function
+		for _, a := range fn.AnonFuncs {
+			if len(Calls(a, false, Named("raftstore/engine.decodeRaftHardState"))) > 0 {
+				cb = a
+			}
+		}
+		if cb == nil {
+			c.Fail(r1b, key(fn, "has:replay-callback"), fn.Pos(), 1, "no replay callback decoding raft records found in OpenWALStorage")
+		} else {
+			c.Touch(cb)
+			pairs := [][2]string{
+				{"raftstore/engine.decodeRaftEntries", "go.etcd.io/raft/v3.(*MemoryStorage).Append"},
+				{"raftstore/engine.decodeRaftHardState", "go.etcd.io/raft/v3.(*MemoryStorage).SetHardState"},
+				{"raftstore/engine.decodeRaftSnapshot", "go.etcd.io/raft/v3.(*MemoryStorage).ApplySnapshot"},
+			}
+			for _, pr := range pairs {
+				dec := need(c, r1b, cb, false, pr[0], Named(pr[0]), 1)
+				app := need(c, r1b, cb, false, pr[1], Named(pr[1]), 1)
+				if len(dec) == 0 || len(app) == 0 {
+					continue
+				}
+				d, a := dec[0], app[0]
+				// every branch on the way from the decode to the apply tests only values produced by the decode
+				// (error, group id, payload emptiness) against constants / the configured group id
+				bad := ""
+				nb := 0
+				for _, b := range cb.Blocks {
+					ifi := ifOf(b)
+					if ifi == nil || !blockReaches(d.Block(), b) || !blockReaches(b, a.Block()) || b == a.Block() {
+						continue
+					}
+					if !d.Block().Dominates(b) {
+						continue
+					}
+					// a filter branch: one successor cannot reach the apply
+					if blockReaches(b.Succs[0], a.Block()) && blockReaches(b.Succs[1], a.Block()) {
+						continue
+					}
+					nb++
+					if why := replayFilterOK(ifi.Cond, d.Value()); why != "" {
+						bad = why
+					}
+				}
+				c.Decide(bad == "", r1b, key(cb, "filters-between:"+shortName(pr[0])+"→"+shortName(pr[1])), a.Pos(), nb+1, fmt.Sprintf("%d filter(s), all on the decoded record itself", nb), "a replayed record can be skipped by a condition that is not a property of the record itself ("+bad+"): persisted raft state is not recovered exactly")
+			}
+		}
 	}
 
 	const r2 = "K1.persist-before-send"
@@ -165,6 +212,27 @@ func C23(c *Ctx) {
 			g, _ := guardedByCall(fn, a, Named("raftstore/store.isReadOnlyRequest"), true)
 			c.Decide(g && len(ro) == 1, r1, key(fn, fmt.Sprintf("commandApplier[%d]<-isReadOnlyRequest", i+1)), a.Pos(), 2, "only read-only commands bypass the log", "a command that is not read-only can be applied locally without going through raft")
 		}
+	}
+	if fn := c.Fn("raftstore/peer", "Peer.LinearizableRead"); fn != nil {
+		sri := need(c, r1, fn, false, "startReadIndex", Named("raftstore/peer.(*Peer).startReadIndex"), 1)
+		n := 0
+		for _, r := range SuccessReturns(fn) {
+			if fn.Recover != nil && r.Block() == fn.Recover {
+				continue
+			}
+			// `return 0, ctx.Err()` in the <-ctx.Done() case: Err is non-nil once Done is closed
+			if ec, ok := RetVal(r, 1).(*ssa.Call); ok && ec.Call.IsInvoke() && ec.Call.Method.Name() == "Err" && TypeName(ec.Call.Value.Type()) == "context.Context" {
+				continue
+			}
+			n++
+			v := RetVal(r, 0)
+			good := false
+			if len(sri) > 0 {
+				good = recvFromResultOf(v, sri[0].Value(), 1)
+			}
+			c.Decide(good, r1, key(fn, fmt.Sprintf("success-return[%d]#index<-readIndex-channel", n)), r.Pos(), 2, "the index returned on success is the one received from the ReadIndex waiter channel", "LinearizableRead can return success with an index that did not come from the ReadIndex round trip (no quorum confirmation of leadership: a deposed leader serves stale reads)")
+		}
+		c.Decide(n >= 1, r1, key(fn, "has:success-return"), fn.Pos(), 1, "success return found", "no success return found in LinearizableRead")
 	}
 	if fn := c.Fn("raftstore/peer", "Peer.startReadIndex"); fn != nil {
 		reg := fieldStoresIn(fn, false, "raftstore/peer.Peer", "pendingReads")
@@ -481,4 +549,118 @@ func nilValueEdges(fn *ssa.Function, v ssa.Value) map[[2]*ssa.BasicBlock]bool {
 		out[e.Nil] = true
 	}
 	return out
+}
+
+// recvFromResultOf: v is the value received (select case or <-ch) from the channel that is
+// result #idx of call.
+func recvFromResultOf(v ssa.Value, call ssa.Value, idx int) bool {
+	isCh := func(ch ssa.Value) bool {
+		ex, ok := ch.(*ssa.Extract)
+		return ok && ex.Tuple == call && ex.Index == idx
+	}
+	switch x := v.(type) {
+	case *ssa.UnOp:
+		if x.Op == token.ARROW {
+			return isCh(x.X)
+		}
+	case *ssa.Extract:
+		switch t := x.Tuple.(type) {
+		case *ssa.Select:
+			k := x.Index - 2
+			j := 0
+			for _, st := range t.States {
+				if st.Dir != types.RecvOnly {
+					continue
+				}
+				if j == k {
+					return isCh(st.Chan)
+				}
+				j++
+			}
+		case *ssa.UnOp:
+			if t.Op == token.ARROW && x.Index == 0 {
+				return isCh(t.X)
+			}
+		}
+	}
+	return false
+}
+
+func shortName(n string) string {
+	if i := strings.LastIndex(n, "."); i >= 0 {
+		return n[i+1:]
+	}
+	return n
+}
+
+// replayFilterOK returns "" when cond only involves results of the decode call dec,
+// constants, free variables (the configuration) and pure functions of those; otherwise it
+// names the foreign operand.
+func replayFilterOK(cond ssa.Value, dec ssa.Value) string {
+	var bad string
+	seen := map[ssa.Value]bool{}
+	var walk func(v ssa.Value, depth int)
+	walk = func(v ssa.Value, depth int) {
+		if v == nil || seen[v] || bad != "" {
+			return
+		}
+		seen[v] = true
+		if depth > 12 {
+			bad = "expression too deep"
+			return
+		}
+		switch x := v.(type) {
+		case *ssa.Const, *ssa.FreeVar, *ssa.Builtin, *ssa.Function:
+			return
+		case *ssa.Extract:
+			if x.Tuple == dec {
+				return
+			}
+			walk(x.Tuple, depth+1)
+		case *ssa.BinOp:
+			walk(x.X, depth+1)
+			walk(x.Y, depth+1)
+		case *ssa.UnOp:
+			walk(x.X, depth+1)
+		case *ssa.Phi:
+			for _, e := range x.Edges {
+				walk(e, depth+1)
+			}
+		case *ssa.FieldAddr:
+			walk(x.X, depth+1)
+		case *ssa.Field:
+			walk(x.X, depth+1)
+		case *ssa.Convert:
+			walk(x.X, depth+1)
+		case *ssa.Call:
+			if x == dec {
+				return
+			}
+			if _, isB := x.Call.Value.(*ssa.Builtin); !isB {
+				if o := CalleeObj(x.Common()); o == nil || !pureRaftHelpers[ObjName(o)] {
+					bad = "call to " + x.Call.Value.String()
+					return
+				}
+			}
+			for _, a := range x.Call.Args {
+				walk(a, depth+1)
+			}
+		case *ssa.Alloc:
+			// a spilled local: every store into it must be acceptable
+			for _, r := range *x.Referrers() {
+				if st, ok := r.(*ssa.Store); ok && st.Addr == x {
+					walk(st.Val, depth+1)
+				}
+			}
+		default:
+			bad = fmt.Sprintf("operand %s", v.String())
+		}
+	}
+	walk(cond, 0)
+	return bad
+}
+
+var pureRaftHelpers = map[string]bool{
+	"go.etcd.io/raft/v3.IsEmptySnap":      true,
+	"go.etcd.io/raft/v3.IsEmptyHardState": true,
 }
